@@ -1,12 +1,31 @@
 /-!
 # Fine-grained (source-line) model of `Worker._process_await` ∥ `Worker._handle_result`
 
-Two threads of one worker share a mailbox, the awaiting task's flags and the ready queue.
-Each source line of `_process_await` (main thread) and `_handle_result` (incoming thread)
+Two threads of one worker share the mailboxes, the awaiting task's flags and the ready queue.
+Each source statement of `_process_await` (main thread) and `_handle_result` (incoming thread)
 that reads or writes shared state is one step; everything else the main thread does
 (`_get_next_ready_task`, `_get_desired_result`, the coroutine step up to the next `await`)
-is one atomic step.  Scenario: one task awaiting two single-result futures `f0`, `f1`
-(mailboxes 0 and 1) in this order; the incoming thread delivers the result of `f0`.
+is one atomic step (`loop`).  Scenario: one task awaiting two single-result futures `f0`, `f1`
+(mailboxes 0 and 1) in this order; the incoming thread delivers the result of `f0`, then the
+result of `f1`.
+
+The statements (the harness checks with an AST query that these are the statements of the live
+source, in this order, and which of them are inside `with self._mailbox_mutex:`):
+
+    _process_await                                         _handle_result
+    pa 0  if future.mailbox_id not in self._mailboxes      hr 0  if mailbox_id not in self._mailboxes: return
+    pa 1  box = self._mailboxes[future.mailbox_id]         hr 1  box = self._mailboxes[mailbox_id]
+    pa 2  box.dest_addr = task.return_address              hr 2  box.deposit_result(result)
+    pa 3  task.desired_box_id = future.mailbox_id          hr 3  if box.has_task_waiting:
+    pa 4  task.wake_on_next = future._next_flag            hr 4  task = self._tasks[box.dest_addr]
+    pa 5  if box.ready: self._ready_task_ids.put(...)      hr 5  if task.wake_on_next or box.ready:
+                                                           hr 6  self._ready_task_ids.put(box.dest_addr)
+                                                           hr 7  box.dest_addr = None
+
+`lk = true` is **the code as it is** (since the maintainer's mailbox-mutex fix): both statement
+sequences run under `self._mailbox_mutex`; acquiring is a step of its own (a thread that wants
+the lock while the other holds it does not move), the release is part of the last statement.
+`lk = false` is the **pre-fix variant** (no lock), kept for the regression example only.
 -/
 namespace BqVerif.FineWake
 
@@ -20,18 +39,26 @@ def FBox.ready (b : FBox) : Bool := decide (1 ≤ b.num)
 
 /-- program counter of the main thread -/
 inductive MainPc where
-  | pa (line : Nat) (m : Nat)   -- in `_process_await` for mailbox m, about to run line 0..5
-  | loop (awaited : Nat)        -- in `_loop`, about to call `_try_step_next_ready_task`;
-                                -- `awaited` futures have been consumed so far
-  | blocked (awaited : Nat)     -- blocked in `_ready_task_ids.get()`
-  | failed                      -- `assert box.ready` raised: AssertionError sent as ERROR
+  | pa (line : Nat) (m : Nat)   -- in `_process_await` for mailbox m, about to run statement 0..5
+  | loop (awaited : Nat)        -- in `_loop`, about to call `_try_step_next_ready_task` (blocked in
+                                -- `_ready_task_ids.get()` while the queue is empty); the task's
+                                -- await of future `awaited` is registered
+  | failed                      -- an exception left task code: `assert box.ready` (AssertionError) or
+                                -- 'Cannot await on a canceled task.' - sent as ERROR
   | finished
 deriving DecidableEq, Repr
 
-/-- program counter of the incoming thread inside `_handle_result` for mailbox 0 -/
+/-- program counter of the incoming thread -/
 inductive InPc where
-  | hr (line : Nat)             -- about to run line 0..6
+  | hr (line : Nat) (m : Nat)   -- in `_handle_result` for mailbox m, about to run statement 0..7
+  | crashed                     -- KeyError in the incoming thread
   | done
+deriving DecidableEq, Repr
+
+inductive Holder where
+  | free
+  | mainT
+  | incT
 deriving DecidableEq, Repr
 
 structure FState where
@@ -42,7 +69,8 @@ structure FState where
   ready : Nat := 0              -- occurrences of the task's address in _ready_task_ids
   maxReady : Nat := 0           -- ghost: the largest value `ready` ever had
   main : MainPc := .pa 0 0      -- the task's first step ran the body up to `await f0`
-  inc : InPc := .hr 0
+  inc : InPc := .hr 0 0
+  lock : Holder := .free        -- self._mailbox_mutex (stays `free` in the pre-fix variant)
 deriving DecidableEq, Repr
 
 def FState.box (s : FState) (m : Nat) : FBox := if m = 0 then s.box0 else s.box1
@@ -50,122 +78,105 @@ def FState.setBox (s : FState) (m : Nat) (b : FBox) : FState :=
   if m = 0 then { s with box0 := b } else { s with box1 := b }
 def FState.put (s : FState) : FState :=
   { s with ready := s.ready + 1, maxReady := max s.maxReady (s.ready + 1) }
+/-- leaving the `with` block -/
+def FState.release (lk : Bool) (s : FState) : FState := if lk then { s with lock := .free } else s
 
-/-- one line of the main thread -/
-def stepMain (s : FState) : FState :=
+/-- one step of the main thread -/
+def stepMain (lk : Bool) (s : FState) : FState :=
   match s.main with
-  | .pa 0 m =>        -- if future.mailbox_id not in self._mailboxes: raise
-    if (s.box m).present then { s with main := .pa 1 m } else { s with main := .failed }
-  | .pa 1 m => { s with main := .pa 2 m }                                   -- box = self._mailboxes[...]
-  | .pa 2 m => { (s.setBox m { s.box m with dest := true }) with main := .pa 3 m }   -- box.dest_addr = ...
-  | .pa 3 m => { s with desired := some m, main := .pa 4 m }                -- task.desired_box_id = ...
-  | .pa 4 m => { s with wakeNext := false, main := .pa 5 m }                -- task.wake_on_next = ...
-  | .pa 5 m =>                                                              -- if box.ready: put
+  | .pa 0 m =>
+    if lk && s.lock != .mainT then
+      -- with self._mailbox_mutex:
+      if s.lock = .incT then s else { s with lock := .mainT }
+    else if (s.box m).present then { s with main := .pa 1 m }
+    else ({ s with main := .failed }).release lk       -- raise RuntimeError('Cannot await …')
+  | .pa 1 m => { s with main := .pa 2 m }
+  | .pa 2 m => { (s.setBox m { s.box m with dest := true }) with main := .pa 3 m }
+  | .pa 3 m => { s with desired := some m, main := .pa 4 m }
+  | .pa 4 m => { s with wakeNext := false, main := .pa 5 m }
+  | .pa 5 m =>
     let s1 := if (s.box m).ready then s.put else s
-    { s1 with main := .loop (if m = 0 then 0 else 1) }
+    ({ s1 with main := .loop m }).release lk
   | .pa _ _ => s
   | .loop k =>
-    if s.ready = 0 then { s with main := .blocked k }
+    if s.ready = 0 then s            -- blocked in get()
     else
       -- pop; `_get_desired_result`
       let s1 := { s with ready := s.ready - 1 }
       match s1.desired with
       | none => { s1 with main := .failed }
       | some m =>
-        if !(s1.box m).ready then { s1 with main := .failed }      -- assert box.ready
+        if !(s1.box m).present then { s1 with main := .failed }     -- KeyError (dropped mailbox)
+        else if !(s1.box m).ready then { s1 with main := .failed }  -- assert box.ready
         else
           -- owned_mailboxes.remove, self._mailboxes.pop; task.step() resets the flags and the
           -- body runs to its next await
           let s2 := (s1.setBox m { s1.box m with present := false })
           let s3 := { s2 with desired := none, wakeNext := false }
           if k = 0 then { s3 with main := .pa 0 1 } else { s3 with main := .finished }
-  | .blocked k => if s.ready = 0 then s else { s with main := .loop k }
   | .failed => s
   | .finished => s
 
-/-- one line of the incoming thread -/
-def stepInc (s : FState) : FState :=
+/-- `_handle_result` returns: the incoming thread goes on with the next message -/
+def FState.endHr (lk : Bool) (s : FState) (m : Nat) : FState :=
+  ({ s with inc := if m = 0 then .hr 0 1 else .done }).release lk
+
+/-- one step of the incoming thread -/
+def stepInc (lk : Bool) (s : FState) : FState :=
   match s.inc with
-  | .hr 0 => if s.box0.present then { s with inc := .hr 1 } else { s with inc := .done }
-  | .hr 1 => { s with box0 := { s.box0 with num := s.box0.num + 1 }, inc := .hr 2 }   -- deposit_result
-  | .hr 2 => if s.box0.dest then { s with inc := .hr 3 } else { s with inc := .done } -- has_task_waiting
-  | .hr 3 => { s with inc := .hr 4 }                                                   -- task = self._tasks[...]
-  | .hr 4 => if s.wakeNext || s.box0.ready then { s with inc := .hr 5 } else { s with inc := .done }
-  | .hr 5 => { s.put with inc := .hr 6 }                                               -- put(box.dest_addr)
-  | .hr 6 => { s with box0 := { s.box0 with dest := false }, inc := .done }            -- box.dest_addr = None
-  | .hr _ => s
+  | .hr 0 m =>
+    if lk && s.lock != .incT then
+      if s.lock = .mainT then s else { s with lock := .incT }
+    else if (s.box m).present then { s with inc := .hr 1 m } else s.endHr lk m
+  | .hr 1 m => if (s.box m).present then { s with inc := .hr 2 m }
+               else ({ s with inc := .crashed }).release lk
+  | .hr 2 m => { (s.setBox m { s.box m with num := (s.box m).num + 1 }) with inc := .hr 3 m }
+  | .hr 3 m => if (s.box m).dest then { s with inc := .hr 4 m } else s.endHr lk m
+  | .hr 4 m => { s with inc := .hr 5 m }
+  | .hr 5 m => if s.wakeNext || (s.box m).ready then { s with inc := .hr 6 m } else s.endHr lk m
+  | .hr 6 m => { s.put with inc := .hr 7 m }
+  | .hr 7 m => (s.setBox m { s.box m with dest := false }).endHr lk m
+  | .hr _ _ => s
+  | .crashed => s
   | .done => s
 
-/-- a schedule: `true` = the main thread runs its next line, `false` = the incoming thread -/
-def run (s : FState) : List Bool → FState
-  | [] => s
-  | true :: t => run (stepMain s) t
-  | false :: t => run (stepInc s) t
+def step (lk : Bool) (s : FState) (b : Bool) : FState := if b then stepMain lk s else stepInc lk s
 
-/-- the interleaving the harness forces on the real `Worker` with `sys.settrace`:
-    the incoming thread handles the result right after `box.dest_addr = task.return_address` -/
+/-- a schedule: `true` = the main thread runs its next step, `false` = the incoming thread -/
+def run (lk : Bool) (s : FState) : List Bool → FState
+  | [] => s
+  | b :: t => run lk (step lk s b) t
+
+/-- the code as it is -/
+abbrev runL := run true
+
+/-- REGRESSION (pre-fix variant only): the interleaving of the repaired finding - the incoming
+    thread handles the result of `f0` right after `box.dest_addr = task.return_address` -/
 def raceSchedule : List Bool :=
-  [true, true, true] ++ List.replicate 7 false ++ [true, true, true]   -- rest of _process_await
+  [true, true, true] ++ List.replicate 8 false ++ [true, true, true]   -- rest of _process_await
   ++ [true]                                                              -- first wake: consumes f0, awaits f1
   ++ List.replicate 6 true                                               -- _process_await(f1): not ready
   ++ [true]                                                              -- stale second wake
 
-/-- `_process_await` not interrupted (what a lock around both functions enforces) -/
-def atomicSchedule : List Bool :=
-  List.replicate 6 true ++ List.replicate 7 false ++ List.replicate 9 true
+def addNew (seen : List FState) (xs : List FState) : List FState × List FState :=
+  xs.foldl (fun (acc : List FState × List FState) x =>
+    if acc.1.contains x then acc else (acc.1 ++ [x], acc.2 ++ [x])) (seen, [])
 
-end BqVerif.FineWake
+/-- breadth-first closure of a set of states under both step functions (frontier-wise) -/
+def closure (lk : Bool) : Nat → List FState → List FState → List FState
+  | 0, seen, _ => seen
+  | fuel + 1, seen, frontier =>
+    match frontier with
+    | [] => seen
+    | _ =>
+      let r := addNew seen (frontier.flatMap (fun x => [stepMain lk x, stepInc lk x]))
+      closure lk fuel r.1 r.2
 
-namespace BqVerif.FineWake
+/-- the states the code as it is can reach -/
+def reach : List FState := closure true 200 [{}] [{}]
 
-/-! ## The same two threads with one lock around `_process_await` and `_handle_result`
-    (the proposed patch): a thread that wants the lock while the other holds it does not move. -/
-
-inductive Holder where
-  | free
-  | mainT
-  | incT
-deriving DecidableEq, Repr
-
-structure LState where
-  s : FState := {}
-  lock : Holder := .free
-deriving DecidableEq, Repr
-
-def stepMainL (l : LState) : LState :=
-  match l.s.main with
-  | .pa 0 _ =>                                   -- acquire on entry
-    if l.lock = .incT then l else { s := stepMain l.s, lock := .mainT }
-  | .pa 5 _ => { s := stepMain l.s, lock := .free }     -- release after the last line
-  | _ => { l with s := stepMain l.s }
-
-def stepIncL (l : LState) : LState :=
-  match l.s.inc with
-  | .hr 0 =>
-    if l.lock = .mainT then l
-    else
-      let s' := stepInc l.s
-      { s := s', lock := if s'.inc = .done then .free else .incT }
-  | .done => l
-  | _ =>
-    let s' := stepInc l.s
-    { s := s', lock := if s'.inc = .done then .free else l.lock }
-
-def runL (l : LState) : List Bool → LState
-  | [] => l
-  | true :: t => runL (stepMainL l) t
-  | false :: t => runL (stepIncL l) t
-
-def addNew (seen : List LState) (xs : List LState) : List LState :=
-  xs.foldl (fun acc x => if acc.contains x then acc else acc ++ [x]) seen
-
-/-- breadth-first closure of a set of states under both step functions -/
-def closure : Nat → List LState → List LState
-  | 0, seen => seen
-  | fuel + 1, seen =>
-    let next := addNew seen (seen.flatMap (fun x => [stepMainL x, stepIncL x]))
-    if next.length = seen.length then seen else closure fuel next
-
-def reach : List LState := closure 64 [{}]
+/-- a fair completion: both threads get enough steps, repeatedly -/
+def completion : List Bool :=
+  (List.replicate 4 (List.replicate 20 false ++ List.replicate 20 true)).flatten
 
 end BqVerif.FineWake
